@@ -58,6 +58,7 @@ type Call struct {
 	WroteBefore, WroteAfter int
 	OpsBefore, OpsAfter     int
 	WOpsBefore, WOpsAfter   int // write-side transport operations (SetWriteDeadline/SetDeadline/Write)
+	StartSeq, EndSeq        int64 // global event stamps (concurrent legs)
 	Msg                     int // index into Sent, -1 if none
 	// Deadline is the deadline every frame written during this call must be
 	// written under: the connection's write deadline at the time of the call,
@@ -144,14 +145,22 @@ func (x *wexec) call(step, part int, api string, bad bool, msg int, f func() err
 	if x.gate != nil {
 		x.gate()
 	}
-	wb, ob, wo := len(x.tr.Wrote), len(x.tr.Log), x.tr.WriteOps()
+	var wb, ob, wo int
+	if x.tr != nil {
+		wb, ob, wo = len(x.tr.Wrote), len(x.tr.Log), x.tr.WriteOps()
+	}
+	startSeq := xport.Seq.Add(1)
 	dl := x.deadline
 	if x.ctlDl != nil {
 		dl = *x.ctlDl
 		x.ctlDl = nil
 	}
 	err := f()
-	x.tw.Calls = append(x.tw.Calls, Call{Step: step, Part: part, API: api, Err: err, Bad: bad, WroteBefore: wb, WroteAfter: len(x.tr.Wrote), OpsBefore: ob, OpsAfter: len(x.tr.Log), WOpsBefore: wo, WOpsAfter: x.tr.WriteOps(), Msg: msg, Deadline: dl})
+	cl := Call{Step: step, Part: part, API: api, Err: err, Bad: bad, WroteBefore: wb, OpsBefore: ob, WOpsBefore: wo, Msg: msg, Deadline: dl, StartSeq: startSeq, EndSeq: xport.Seq.Add(1)}
+	if x.tr != nil {
+		cl.WroteAfter, cl.OpsAfter, cl.WOpsAfter = len(x.tr.Wrote), len(x.tr.Log), x.tr.WriteOps()
+	}
+	x.tw.Calls = append(x.tw.Calls, cl)
 	if msg >= 0 && err != nil {
 		x.tw.Sent[msg].Reported = false
 	}
